@@ -37,6 +37,48 @@ Definition onDisconnect (now : Z) (n : netstore) (host : str) : netstore :=
 Definition addStsPolicy (n : netstore) (host policy : str) : netstore :=
   Net (dict_set host policy (policies n)) (discs n).
 
+(* ---- ServersMixin: the server list, as a state machine ----
+   self.servers is (re)loaded from the configuration when it is empty
+   (_getServers); _getNextServer pops the first entry and applies the stored
+   policy to the POPPED entry, at that moment (not when the list is loaded) *)
+Record mixin := Mixin { m_servers : list server; m_current : option server }.
+Inductive mev :=
+| MStore (host policy : str)            (* IrcNetwork.addStsPolicy *)
+| MDisc (now : Z) (host : str)          (* IrcNetwork.addDisconnection at clock now *)
+| MNext (now : Z).                      (* ServersMixin._getNextServer() at clock now *)
+
+Definition getNextServer (conf : list server) (now : Z) (n : netstore) (m : mixin) : netstore * mixin * res server :=
+  let servers := match m_servers m with [] => conf | l => l end in
+  match servers with
+  | [] => (n, Mixin [] (m_current m), Raise AssertionError)
+  | sv :: rest =>
+      let '(n', r) := applyStsPolicy now n sv in
+      match r with
+      | Ok sv' => (n', Mixin rest (Some sv'), r)
+      | Raise _ => (n', Mixin rest (m_current m), r)
+      end
+  end.
+
+Definition mstep (conf : list server) (nm : netstore * mixin) (e : mev) : netstore * mixin * option (res server) :=
+  let '(n, m) := nm in
+  match e with
+  | MStore h p => (addStsPolicy n h p, m, None)
+  | MDisc now h => (onDisconnect now n h, m, None)
+  | MNext now => let '(n', m', r) := getNextServer conf now n m in (n', m', Some r)
+  end.
+
+(* a history: the log records, for every _getNextServer call, the clock, the store as the call found it, and the result *)
+Fixpoint mrun (conf : list server) (nm : netstore * mixin) (evs : list mev) : list (Z * netstore * res server) :=
+  match evs with
+  | [] => []
+  | e :: r =>
+      let '(n', m', o) := mstep conf nm e in
+      match e, o with
+      | MNext now, Some res => (now, fst nm, res) :: mrun conf (n', m') r
+      | _, _ => mrun conf (n', m') r
+      end
+  end.
+
 (* starttls: the `verify` argument handed to ssl_wrap_socket.
    anyval = any([conf verifyCertificates, serverFingerprints, authorityCertificate]) *)
 Definition verify_choice (force conf_verify fingerprints authority : bool) : bool :=
@@ -52,14 +94,26 @@ Definition gNet (v : value) : netstore :=
 Definition vNet (n : netstore) : value :=
   L [L (map (fun e => L [vS (fst e); vS (snd e)]) (policies n)); L (map (fun e => L [vS (fst e); I (snd e)]) (discs n))].
 
+Definition gMixin (v : value) : mixin := Mixin (map gServer (gL (nth_v 0 v))) (gO gServer (nth_v 1 v)).
+Definition vMixin (m : mixin) : value := L [L (map vServer (m_servers m)); vO vServer (m_current m)].
+Definition gMev (v : value) : mev :=
+  match gN (nth_v 0 v) with
+  | 0 => MStore (gS (nth_v 1 v)) (gS (nth_v 2 v))
+  | 1 => MDisc (gZ (nth_v 1 v)) (gS (nth_v 2 v))
+  | _ => MNext (gZ (nth_v 1 v))
+  end.
+
 (* run:  0..1 as C08 (one registration step / parseStsPolicy)
          2 (now net server) -> (net' result)            _applyStsPolicy
-         3 (force conf fp ca) -> bool                    starttls verify choice *)
+         3 (force conf fp ca) -> bool                    starttls verify choice
+         4 (conf net mixin event) -> (net' mixin' result?)   one ServersMixin / store step *)
 Definition run (v : value) : value :=
   let p := nth_v 1 v in
   match gN (nth_v 0 v) with
   | 2 => let '(n', r) := applyStsPolicy (gZ (nth_v 0 p)) (gNet (nth_v 1 p)) (gServer (nth_v 2 p)) in
          L [vNet n'; vR vServer r]
+  | 4 => let '(n', m', o) := mstep (map gServer (gL (nth_v 0 p))) (gNet (nth_v 1 p), gMixin (nth_v 2 p)) (gMev (nth_v 3 p)) in
+         L [vNet n'; vMixin m'; vO (vR vServer) o]
   | 3 => vB (verify_choice (gB (nth_v 0 p)) (gB (nth_v 1 p)) (gB (nth_v 2 p)) (gB (nth_v 3 p)))
   | _ => C08.Model.run v
   end.
